@@ -9,58 +9,69 @@ def maxIdx : Nat := 3
 def maxPid : Nat := 3
 def maxThreads : Nat := 5
 
-/-- A parsed operation: modelled, or one of the GR operations the harness can run but the
-    model does not cover (outside the C18 quantifier, DESIGN §4.0). -/
-inductive POp where
-  | op (o : Op)
-  | ext
-  deriving Repr
-
 def polOf? : Term → Option Pol
   | .atom "none" => some .none | .atom "reject" => some .reject | .atom "tag" => some .tag
   | _ => none
 
-/-- (is a writer operation, operation) -/
-def opOf? (n : Nat) : Term → Option (Bool × POp)
-  | .atom "up" => some (true, .op .up)
-  | .atom "down" => some (true, .op .down)
-  | .atom "sr" => some (true, .op .sr)
-  | .atom "gdown" => some (true, .ext)
-  | .atom "purge" => some (true, .ext)
-  | .atom "unsub" => some (false, .op .unsub)
+/-- (is a writer operation, operation); `me` = index of the thread, `nt` = number of threads -/
+def opOf? (n me nt : Nat) : Term → Option (Bool × Op)
+  | .atom "up" => some (true, .up)
+  | .atom "down" => some (true, .down)
+  | .atom "sr" => some (true, .sr me)
+  | .atom "gdown" => some (true, .gdown)
+  | .atom "purge" => some (true, .purge)
+  | .atom "dropfam" => some (true, .dropfam)
+  | .atom "llgr" => some (true, .llgr)
+  | .atom "lpurge" => some (true, .lpurge)
+  | .atom "unsub" => some (false, .unsub)
+  | .atom "bmp" => some (false, .bmp)
+  | .list [.atom "sr", p] => do
+      let p ← asNat? p
+      if p < nt then some (true, .sr p) else none
   | .list [.atom "ins", k, j, p, a] => do
       let k ← asNat? k; let j ← asNat? j; let p ← asNat? p; let a ← asNat? a
-      if k < n ∧ j < maxIdx ∧ p < maxPid ∧ a < 1000 then some (true, .op (.ins k j p a)) else none
+      if k < n ∧ j < maxIdx ∧ p < maxPid ∧ a < 1000 then some (true, .ins k j p a) else none
   | .list [.atom "rem", k, j, p] => do
       let k ← asNat? k; let j ← asNat? j; let p ← asNat? p
-      if k < n ∧ j < maxIdx ∧ p < maxPid then some (true, .op (.rem k j p)) else none
-  | .list [.atom "pol", x] => (polOf? x).map fun p => (true, .op (.pol p))
-  | .list [.atom "sub", w] => (asBool? w).map fun w => (false, .op (.sub w))
+      if k < n ∧ j < maxIdx ∧ p < maxPid then some (true, .rem k j p) else none
+  | .list [.atom "pol", x] => (polOf? x).map fun p => (true, .pol p)
+  | .list [.atom "sub", w] => (asBool? w).map fun w => (false, .sub w)
   | _ => none
 
-def threadOf? (n : Nat) : Term → Option (Bool × List POp)
+def threadOf? (n nt : Nat) (me : Nat) : Term → Option (Bool × List Op)
   | .list (.atom kind :: ops) => do
       let writer ← (match kind with | "w" => some true | "s" => some false | _ => none)
-      let ps ← ops.mapM (opOf? n)
+      let ps ← ops.mapM (opOf? n me nt)
       if ps.all (fun p => p.1 == writer) then some (writer, ps.map (·.2)) else none
   | _ => none
 
-structure Parsed where
-  case : Case
-  /-- the case uses operations outside the model -/
-  ext : Bool
-  deriving Repr
+def mapIdxM {α β} (f : Nat → α → Option β) : Nat → List α → Option (List β)
+  | _, [] => some []
+  | i, a :: r => do
+      let b ← f i a
+      let bs ← mapIdxM f (i + 1) r
+      pure (b :: bs)
 
-def caseOf? : Term → Option Parsed
+/-- `(sr p)` must name a writer thread -/
+def srOk (ths : List (Bool × List Op)) : Bool :=
+  ths.all fun t => t.2.all fun o => match o with
+    | .sr p => (match ths[p]? with | some (w, _) => w | none => false)
+    | _ => true
+
+def caseOf? : Term → Option Case
   | .list [.atom "case", .list [.atom "cfg", n, g, l], .list (.atom "threads" :: ths), .list (.atom "sched" :: sc)] => do
       let n ← asNat? n; let g ← asNat? g; let l ← asNat? l
       if n = 0 ∨ n > maxShards ∨ g > 1 ∨ l > 9 then none
-      let ths ← ths.mapM (threadOf? n)
       if ths.isEmpty ∨ ths.length > maxThreads then none
+      let threads ← mapIdxM (threadOf? n ths.length) 0 ths
+      if !srOk threads then none
+      -- a BMP connection of a peer without ADD-PATH carries no path ids: such cases use path id 0 only
+      let hasBmp := threads.any fun t => t.2.any fun o => o == .bmp
+      let hasPid := threads.any fun t => t.2.any fun o => match o with
+        | .ins _ _ p _ => p != 0 | .rem _ _ p => p != 0 | _ => false
+      if hasBmp && hasPid then none
       let sc ← sc.mapM asNat?
-      let ext := ths.any fun t => t.2.any fun o => match o with | .ext => true | _ => false
-      let threads := ths.map fun t => (t.1, t.2.filterMap fun o => match o with | .op o => some o | .ext => none)
-      some { case := { n := n, gran := g, limit := l, threads := threads, sched := sc }, ext := ext }
+      some { n := n, gran := g, limit := l, threads := threads, sched := sc }
   | _ => none
 
 /-! ### observations -/
@@ -105,15 +116,23 @@ def histOf? : Term → Option (List Item × List Item)
   | _ => none
 
 def subT (s : SubObs) : Term :=
-  tag "sub" [nat s.tid, nat s.nth, bool s.want, bool s.live,
-    tag "ctl" (s.ctl.map ctlT), tag "hist" (s.hist.map histT), tag "snap" (s.snap.map pairT),
-    tag "fwd" (s.fwd.map ctlT)]
+  if s.bmp then
+    tag "bmp" [nat s.tid, nat s.nth, tag "whist" (s.whist.map histT),
+      tag "wctl" (s.wctl.map fun l => list (l.map ctlT))]
+  else
+    tag "sub" [nat s.tid, nat s.nth, bool s.want, bool s.live,
+      tag "ctl" (s.ctl.map ctlT), tag "hist" (s.hist.map histT), tag "snap" (s.snap.map pairT),
+      tag "fwd" (s.fwd.map ctlT)]
 def subOf? : Term → Option SubObs
   | .list [.atom "sub", tid, nth, want, live, .list (.atom "ctl" :: ctl), .list (.atom "hist" :: hist),
            .list (.atom "snap" :: snap), .list (.atom "fwd" :: fwd)] => do
-      pure { tid := ← asNat? tid, nth := ← asNat? nth, want := ← asBool? want, live := ← asBool? live
+      pure { tid := ← asNat? tid, nth := ← asNat? nth, want := ← asBool? want, live := ← asBool? live, bmp := false
              ctl := ← ctl.mapM ctlOf?, hist := ← hist.mapM histOf?, snap := ← snap.mapM pairOf?
-             fwd := ← fwd.mapM ctlOf? }
+             fwd := ← fwd.mapM ctlOf?, whist := [], wctl := [] }
+  | .list [.atom "bmp", tid, nth, .list (.atom "whist" :: wh), .list (.atom "wctl" :: wc)] => do
+      pure { tid := ← asNat? tid, nth := ← asNat? nth, want := true, live := true, bmp := true
+             ctl := [], hist := [], snap := [], fwd := []
+             whist := ← wh.mapM histOf?, wctl := ← wc.mapM (asListOf? ctlOf?) }
   | _ => none
 
 def obsT (o : Obs) : Term :=
@@ -126,11 +145,13 @@ def obsOf? : Term → Option Obs
   | .list [.atom "obs", .list (.atom "rets" :: rets), .list (.atom "subs" :: subs), .list (.atom "rib" :: rib),
            .list [.atom "rows", a, b], .list [.atom "extra", e]] => do
       pure { rets := ← rets.mapM (asListOf? retOf?), subs := ← subs.mapM subOf?, rib := ← rib.mapM pairOf?
-             rows := (← asNat? a, ← asNat? b), extra := ← asNat? e, finished := true }
+             rows := (← asNat? a, ← asNat? b), extra := ← asNat? e, staleList := false, finished := true }
   | .list [.atom "hang"] =>
-      some { rets := [], subs := [], rib := [], rows := (0, 0), extra := 0, finished := false }
+      some { rets := [], subs := [], rib := [], rows := (0, 0), extra := 0, staleList := false, finished := false }
   | .list [.atom "stuck"] =>
-      some { rets := [], subs := [], rib := [], rows := (0, 0), extra := 0, finished := false }
+      some { rets := [], subs := [], rib := [], rows := (0, 0), extra := 0, staleList := false, finished := false }
+  | .list [.atom "stale-subscriber-list"] =>
+      some { rets := [], subs := [], rib := [], rows := (0, 0), extra := 0, staleList := true, finished := true }
   | _ => none
 
 end Rbgp.Monitor.Codec
